@@ -15,12 +15,14 @@ import (
 	"github.com/kardiachain/go-kardia/kai/kaidb"
 	"github.com/kardiachain/go-kardia/kai/kaidb/memorydb"
 	"github.com/kardiachain/go-kardia/kai/state/cstate"
+	"github.com/kardiachain/go-kardia/lib/common"
 	"github.com/kardiachain/go-kardia/lib/crypto"
 	"github.com/kardiachain/go-kardia/lib/log"
 	"github.com/kardiachain/go-kardia/lib/p2p"
 	"github.com/kardiachain/go-kardia/mainchain/blockchain"
 	"github.com/kardiachain/go-kardia/mainchain/genesis"
 	"github.com/kardiachain/go-kardia/mainchain/staking"
+	stypes "github.com/kardiachain/go-kardia/mainchain/staking/types"
 	"github.com/kardiachain/go-kardia/mainchain/tx_pool"
 	"github.com/kardiachain/go-kardia/types"
 	"github.com/kardiachain/go-kardia/types/evidence"
@@ -62,7 +64,32 @@ func (n *cnode) newExecutor() *cstate.BlockExecutor {
 	return cstate.NewBlockExecutor(n.store, log.New(), n.evp, n.bo)
 }
 
-func buildNode(i int, priv types.PrivValidator, vals []*types.Validator) (*cnode, error) {
+// boOps is what the consensus state and the block executor need from the chain
+type boOps interface {
+	consensus.BaseBlockOperations
+	cstate.BlockStore
+}
+
+// changingOps reports, for the block of height `at`, the validator set `vals` as the application's result (what the
+// staking contract would return after a power change); everything else is the real BlockOperations
+type changingOps struct {
+	*blockchain.BlockOperations
+	at   uint64
+	vals []*types.Validator
+}
+
+func (o *changingOps) CommitAndValidateBlockTxs(b *types.Block, lci stypes.LastCommitInfo, byz []stypes.Evidence) ([]*types.Validator, common.Hash, error) {
+	vals, app, err := o.BlockOperations.CommitAndValidateBlockTxs(b, lci, byz)
+	if err == nil && b.Height() == o.at {
+		vals = nil
+		for _, v := range o.vals {
+			vals = append(vals, types.NewValidator(v.Address, v.VotingPower))
+		}
+	}
+	return vals, app, err
+}
+
+func buildNode(i int, priv types.PrivValidator, vals []*types.Validator, wrap ...func(*blockchain.BlockOperations) boOps) (*cnode, error) {
 	db := memorydb.New()
 	g := mkGenesis()
 	bc, err := blockchain.NewBlockChain(db, &blockchain.CacheConfig{TrieCleanLimit: 16, TrieDirtyDisabled: true, TrieTimeLimit: 5 * time.Minute}, g)
@@ -85,8 +112,12 @@ func buildNode(i int, priv types.PrivValidator, vals []*types.Validator) (*cnode
 		return nil, err
 	}
 	bo := blockchain.NewBlockOperations(log.New(), bc, pool, evp, stk)
-	be := cstate.NewBlockExecutor(store, log.New(), evp, bo)
-	cs := consensus.NewConsensusState(log.New(), configs.TestConsensusConfig(), st, bo, be, evp)
+	var ops boOps = bo
+	if len(wrap) > 0 && wrap[0] != nil {
+		ops = wrap[0](bo)
+	}
+	be := cstate.NewBlockExecutor(store, log.New(), evp, ops)
+	cs := consensus.NewConsensusState(log.New(), configs.TestConsensusConfig(), st, ops, be, evp)
 	nd := &cnode{id: i, cs: cs, db: db, store: store, evp: evp, bo: bo, bc: bc}
 	cs.SetPrivValidator(priv)
 	eb := types.NewEventBus()
@@ -121,6 +152,35 @@ func newNetwork(n int) (*network, error) {
 	}
 	for i := 0; i < n; i++ {
 		nd, err := buildNode(i, nw.privs[i], nw.vals)
+		if err != nil {
+			return nil, err
+		}
+		nw.nodes = append(nw.nodes, nd)
+	}
+	return nw, nil
+}
+
+// newNetworkChanging: as newNetwork, but the execution of block `at` changes the powers to `powers` (in force from
+// height at+2); the order of the validators stays the same as long as `powers` is non-increasing
+func newNetworkChanging(n int, at uint64, powers []int64) (*network, error) {
+	log.Root().SetHandler(log.DiscardHandler())
+	nw := &network{}
+	for i := 0; i < n; i++ {
+		k, _ := crypto.ToECDSA(crypto.Keccak256([]byte(fmt.Sprintf("val%d", i))))
+		nw.privs = append(nw.privs, types.NewDefaultPrivValidator(k))
+	}
+	sort.Slice(nw.privs, func(a, b int) bool {
+		return string(nw.privs[a].GetAddress().Bytes()) < string(nw.privs[b].GetAddress().Bytes())
+	})
+	var changed []*types.Validator
+	for i := 0; i < n; i++ {
+		nw.vals = append(nw.vals, types.NewValidator(nw.privs[i].GetAddress(), 10))
+		changed = append(changed, types.NewValidator(nw.privs[i].GetAddress(), powers[i]))
+	}
+	for i := 0; i < n; i++ {
+		nd, err := buildNode(i, nw.privs[i], nw.vals, func(bo *blockchain.BlockOperations) boOps {
+			return &changingOps{BlockOperations: bo, at: at, vals: changed}
+		})
 		if err != nil {
 			return nil, err
 		}
